@@ -301,6 +301,63 @@ def run(ck: Check):
                 nbad = sum(1 for a_, b_ in zip(got, exp) if a_ != b_)
                 ck.disagree("compile() built the library of the model as it was when the CompiledLogicNet was constructed, not as it is now",
                             dict(case, differing_rows=nbad, rows=len(exp)), signature={"what": "stale-snapshot", "kind": "wrong"})
+    # the CONTAINER changes between the constructor / a first compile and a second compile on the same object (the group sum is
+    # removed, replaced or added, a layer is dropped): everything the first parse recorded (class count, input shape, layer tables)
+    # must be forgotten - the library computes the container as it is now, or the compilation is refused
+    from torchlogix.layers import GroupSum as _GS
+    for kind in ("dense", "conv"):
+        for change in ("drop-groupsum", "other-k", "add-groupsum", "drop-last-dense"):
+            for first_compile in (False, True):
+                torch.manual_seed(ck.seed + 9)
+                if kind == "dense":
+                    model = nets.make_dense(rng, 5, [8, 12, 12], k=None if change == "add-groupsum" else 3)
+                else:
+                    model = nets.make_custom(rng, (1, 4, 4), [("conv", dict(K=2, depth=1, rf=2)), ("flatten",), ("dense", 12), ("dense", 12)]
+                                             + ([] if change == "add-groupsum" else [("gs", 3)]))
+                case = {"kind": "container-changed-before-compile", "model": kind, "change": change, "compiled_before": first_compile}
+                ck.case(case, nontrivial=True, kind="stale-structure")
+                try:
+                    net = compiled.build(model, 8)
+                    if first_compile:
+                        compiled.compile_net(net)
+                except Exception as e:
+                    ck.disagree("a supported container was refused", case, observed=repr(e)[:200], signature={"what": "stale-structure", "kind": "setup"})
+                    continue
+                if change == "drop-groupsum":
+                    del model[-1]
+                elif change == "other-k":
+                    model[-1] = _GS(4, 1.0, device="cpu")
+                elif change == "add-groupsum":
+                    model.append(_GS(2, 1.0, device="cpu"))
+                else:
+                    del model[-2]
+                try:
+                    compiled.compile_net(net)
+                except Exception as e:
+                    ck.count("changed_container_refused")
+                    continue
+                try:
+                    mods_now = list(model)
+                    spec = nets.extract(model)
+                    n_in = int(np.prod(spec["input_shape"]))
+                    rws, _ = nets.input_rows(rng, n_in, 8)
+                    x = torch.tensor(rws, dtype=torch.float32).reshape(len(rws), *spec["input_shape"])
+                    model.eval()
+                    with torch.no_grad():
+                        y = model(x)
+                    exp = [[round(v * (spec["tau"] or 1.0)) for v in r] for r in y.reshape(len(rws), -1).tolist()]
+                    got = [[int(v) for v in np.array(r).reshape(-1)] for r in
+                           compiled.forward(net, np.array(rws, dtype=bool).reshape(len(rws), *spec["input_shape"]).tolist())]
+                except Exception as e:
+                    ck.disagree("a container changed after the CompiledLogicNet was constructed compiles but cannot be evaluated", case,
+                                observed=repr(e)[:300], signature={"what": "stale-structure", "kind": "error"})
+                    continue
+                ck.count("changed_container_compared")
+                if got != exp:
+                    j = next(i for i in range(len(exp)) if i >= len(got) or got[i] != exp[i])
+                    ck.disagree("compile() on an object whose container changed since it was parsed computes the old structure (class count / layers of the earlier parse)",
+                                dict(case, row=rws[j]), expected=exp[j], observed=got[j] if j < len(got) else None,
+                                signature={"what": "stale-structure", "kind": "wrong", "change": change})
     # decision model in the kernel
     txt = ("From Coq Require Import String List Arith. Import ListNotations.\nFrom TLX Require Import Model.Parse.\nLocal Open Scope string_scope.\n"
            "Eval vm_compute in [" + ";\n ".join(
